@@ -633,6 +633,14 @@ func (w *World) count(store string, row *Row, sym string, sub *SubQ) int {
 		if info.KidOnly && !HashKid(id) {
 			continue // not a member of the child store the set is typed to
 		}
+		if tr == nil && !info.KidOnly {
+			// an id that names no entity (a list the application keeps itself may hold one): whether the sub-query
+			// steps over it or evaluates its predicate on a row without fields is left open (see World.phantomRows)
+			w.sawPhantom = true
+			if w.phantomRows && (sub.Q.Pred == nil || w.Eval(sub.Q.Pred, info.Target, &Row{Id: id, V: map[string]any{}})) {
+				match = append(match, id)
+			}
+		}
 		if tr != nil && (sub.Q.Pred == nil || w.Eval(sub.Q.Pred, info.Target, tr)) {
 			match = append(match, id)
 		}
@@ -663,9 +671,24 @@ func (w *World) Match(e Expr, store string) (ids []string, judged bool, why stri
 			panic(r)
 		}
 	}()
+	w.phantomRows, w.sawPhantom = false, false
 	for _, id := range w.Ids(store) {
 		if w.Eval(e, store, w.Rows[store][id]) {
 			ids = append(ids, id)
+		}
+	}
+	if w.sawPhantom {
+		// the other reading of ids that name no entity: judged only if it selects the same entities
+		w.phantomRows = true
+		defer func() { w.phantomRows = false }()
+		var other []string
+		for _, id := range w.Ids(store) {
+			if w.Eval(e, store, w.Rows[store][id]) {
+				other = append(other, id)
+			}
+		}
+		if fmt.Sprint(ids) != fmt.Sprint(other) {
+			return nil, false, "sub-query over a list holding an id that names no entity: the two readings differ"
 		}
 	}
 	return ids, true, ""
